@@ -181,13 +181,14 @@ def requests_of(trace):
 
 def scenarios(rng, thorough):
     out = []
-    n = 12 if thorough else 4
+    n = 15 if thorough else 5
     for i in range(n):
-        w = progs.gen_chain_world(rng) if i % 4 == 2 else progs.gen_world(rng, nfun=rng.randint(2, 4), allow=("call", "keep", "datafn"))
+        w = progs.gen_chain_world(rng) if i % 5 == 2 else progs.gen_world(rng, nfun=rng.randint(2, 4), allow=("call", "keep", "datafn"))
         for f in w["funs"]:
             f["uses_ext"] = False
         # rekeep_top: the evaluated function is itself kept (dds.keep at top level) and keeps other paths inside
-        kind = ["first", "rekeep", "first_cached", "rekeep_top"][i % 4]
+        # first_nested: store creation with the data directory inside the internal directory
+        kind = ["first", "rekeep", "first_cached", "rekeep_top", "first_nested"][i % 5]
         out.append((kind, w))
     return out
 
@@ -208,6 +209,7 @@ def run(ctx):
             w_new = w
             old_paths = {}
             top = "/top6/result" if kind == "rekeep_top" else None
+            dsub = "/internal/data" if kind == "first_nested" else "/data"
             if kind in ("rekeep", "rekeep_top"):
                 w_new = copy.deepcopy(w)
                 kept = [fn for (_, fn) in progs.kept_paths(w)]
@@ -225,14 +227,14 @@ def run(ctx):
             os.makedirs(template)
             if kind in ("rekeep", "rekeep_top"):
                 write_world(ws, modname, extmod, w)
-                st = in_child(evaluate(ws, modname, extmod, template + "/internal", template + "/data", None, top_path=top))
+                st = in_child(evaluate(ws, modname, extmod, template + "/internal", template + dsub, None, top_path=top))
                 if st[0] != "ok":
                     raise common.Infra("setup evaluation failed: %s" % (st,))
             write_world(ws, modname, extmod, w_new)
             # count the operations of the uncrashed request
             run0 = os.path.join(tmp, "run0")
             shutil.copytree(template, run0, symlinks=True)
-            full = in_child(evaluate(ws, modname, extmod, run0 + "/internal", run0 + "/data", cache, top_path=top), kill_at=None, base=run0)
+            full = in_child(evaluate(ws, modname, extmod, run0 + "/internal", run0 + dsub, cache, top_path=top), kill_at=None, base=run0)
             if full[0] != "ok":
                 res.violations.append({"what": "evaluation fails even without a crash: %s" % (full[1],),
                                        "input": {"scenario": kind, "source": progs.render_world(w_new, "extmod")}, "kf": None})
@@ -249,9 +251,9 @@ def run(ctx):
                 shutil.copytree(template, d, symlinks=True)
                 # links in the template point into the template: re-point them into this copy
                 _repoint(d, template)
-                st = in_child(evaluate(ws, modname, extmod, d + "/internal", d + "/data", cache, top_path=top), kill_at=k, base=d)
+                st = in_child(evaluate(ws, modname, extmod, d + "/internal", d + dsub, cache, top_path=top), kill_at=k, base=d)
                 observed.append(observe(d))
-                rec = in_child(recover(ws, modname, extmod, d + "/internal", d + "/data", sorted(set(old_paths) | set(new_paths)), top_path=top))
+                rec = in_child(recover(ws, modname, extmod, d + "/internal", d + dsub, sorted(set(old_paths) | set(new_paths)), top_path=top))
                 res.evaluations += 1
                 res.nontrivial("%d %s k%d %s" % (si, kind, k, full[2][k][0] if k < nops else "end"))
                 case = {"scenario": kind, "crash_before_operation": k, "operation": " ".join(full[2][k]) if k < nops else "(after the last one)",
@@ -279,7 +281,7 @@ def run(ctx):
                 shutil.rmtree(d, ignore_errors=True)
             # correspondence: the states found after the crash points are exactly the prefix states of the model's
             # program for these requests, in order
-            if ctx["driver_ok"]:
+            if ctx["driver_ok"] and kind != "first_nested":
                 nsteps = sum(7 if r[0] == "store" else 3 for r in reqs)
                 ans = common.drv_batch([{"op": "schedule", "init": {"blobs": init_state["blobs"], "links": [[l.split("/"), k] for (l, k) in init_state["links"]]},
                                          "procs": [reqs], "schedule": [0] * nsteps}])[0]
